@@ -95,11 +95,15 @@ def _block(block, agg):
         descs = [{"fam": "seed", "lang": lang, "seed": i} for i in range(len(malformed.seeds(lang)))]
         text0 = malformed.seed_text(lang, 0)
         descs += [{"fam": "damage", "lang": lang, "seed": 0, "op": "prefix", "at": at} for at in range(0, len(text0), 7)]
+        for sk in programs.skeletons(lang).values():
+            descs.append({"fam": "text", "lang": lang, "text": canon.render(sk)[0]})
+        many = {"lang": lang, "items": [programs.func(f"q{i}", [programs.S("simple")] * (i + 1)) for i in range(7)]}
+        descs.append({"fam": "text", "lang": lang, "text": canon.render(many)[0]})
         for k, sig, d, detail in eval_files(lang, descs):
             if k == "__raised__":
                 agg.extra["analysis_raised_or_timed_out(see C03)"] += 1
                 continue
-            agg.violation(k, sig, d, detail)
+            agg.violation(k, sig, {"fam": "file", "lang": lang, "text": malformed.text_of(d)}, detail)
         agg.case({"fam": "files", "lang": lang, "n": len(descs)}, True, "files", sample=False)
     elif kind == "canon":
         _, lang, shard, n = block
@@ -112,6 +116,9 @@ def _block(block, agg):
 def replay(case):
     if case.get("fam") == "files":
         return []
+    if case.get("fam") == "file":
+        viol = eval_files(case["lang"], [{"fam": "text", "lang": case["lang"], "text": case["text"]}])
+        return [{"kind": k, "sig": s, "detail": d} for k, s, _, d in viol if k != "__raised__"]
     _, viol = eval_desc(case)
     return [{"kind": k, "sig": s, "detail": d} for k, s, d in viol]
 
